@@ -39,14 +39,60 @@ def source_line(pos):
     return _src_cache[f].get(int(ln), '').strip()
 
 
-# declassifications: (function suffix, source line) -> reason.  Anything else that branches on a secret is a violation.
-DECLASSIFIED = {
-    ('secec.sampleRandomScalar', 'if didReduce == 0 && s.IsZero() == 0 { // Short circuit reject is ok.'):
-        'rejection test on a nonce CANDIDATE: rejected candidates are discarded, never used (probability < 2^-127)',
-    ('secec.sign', 'if r.IsZero() != 0 {'): 'r is a published signature component',
-    ('secec.sign', 'if s.IsZero() == 0 {'): 's is a published signature component',
-    ('bitcoin.signSchnorr', 'if kPrime.IsZero() != 0 {'): "BIP-340 mandates failing when k' = 0 (probability 2^-256)",
-}
+# declassifications: decisions on a secret-derived value that the protocol itself publishes or discards.  A decision is identified
+# semantically, not by its source text: (function, the calls whose results the branch condition is computed from in the SSA).  Any other
+# branch on a secret is a violation.
+DECLASS_RULES = [
+    ('secec.sampleRandomScalar', ('Scalar).SetBytes', 'Scalar).IsZero'),
+     'rejection test on a nonce CANDIDATE: rejected candidates are discarded, never used (probability < 2^-127)'),
+    ('secec.sign', ('Scalar).IsZero',), 'zero tests in sign() are on r and s, the published signature components (retry when r = 0 or s = 0)'),
+    ('bitcoin.signSchnorr', ('Scalar).IsZero',), "BIP-340 mandates failing when k' = 0 (probability 2^-256)"),
+]
+_PURE_OPS = ('BinOp', 'Convert', 'ChangeType', 'Extract', 'Phi')
+
+
+def cond_origins(prog, fname, block):
+    """names of the calls (and other non-pure sources) the condition of the If ending `block` of `fname` is computed from"""
+    f = prog.funcs.get(fname)
+    if f is None:
+        return {'?'}
+    defs = {}
+    for b in f['blocks']:
+        for I in b['instrs']:
+            if 'n' in I:
+                defs[I['n']] = I
+    iff = [I for I in f['blocks'][block]['instrs'] if I['op'] == 'If']
+    if not iff:
+        return {'?'}
+    out, seen, todo = set(), set(), [iff[-1]['x']]
+    while todo:
+        v = todo.pop()
+        if not isinstance(v, dict) or v.get('k') != 'v':
+            if isinstance(v, dict) and v.get('k') == 'g':
+                out.add('global')
+            continue
+        if v['n'] in seen:
+            continue
+        seen.add(v['n'])
+        I = defs.get(v['n'])
+        if I is None:
+            out.add('param:' + v['n'])
+        elif I['op'] == 'Call':
+            fn = I['call'].get('fn') or {}
+            out.add(fn.get('n') or ('invoke:' + str(I['call'].get('method'))))
+        elif I['op'] in _PURE_OPS or (I['op'] == 'UnOp' and I.get('tok') != '*'):
+            todo.extend([I.get('x'), I.get('y')] + list(I.get('edges') or []))
+        else:
+            out.add(I['op'])
+    return out
+
+
+def declassified(prog, fname, block):
+    org = cond_origins(prog, fname, block)
+    for suf, allowed, why in DECLASS_RULES:
+        if fname.endswith(suf) and org and (allowed is None or all(any(o.endswith(a) for a in allowed) for o in org)):
+            return (suf, ','.join(sorted(o.rsplit('.', 1)[-1] for o in org)), why)
+    return None
 
 
 def tainted(v):
@@ -71,10 +117,7 @@ def instrument(m, ctx, leaks):
                 fn = site[0] if site else '?'
                 pos = m.cur_pos
                 line = source_line(pos)
-                key = None
-                for (suf, ln), why in DECLASSIFIED.items():
-                    if fn.endswith(suf) and ln == line:
-                        key = (suf, ln, why)
+                key = declassified(m.prog, fn, site[1]) if site else None
                 if key:
                     leaks.declass.append(key)
                 else:
@@ -414,9 +457,8 @@ def main():
         sig, err = m.call(BTC + 'signSchnorr', [X.Ptr(ao, ()), sk, m.new_byte_slice(sym_bytes('m', 32), 'msg')])
         return 'ok' if err is None else 'err'
     if not only or 'proto' in only:
-        DECLASSIFIED[('bitcoin.verifySchnorrSignatureR', 'if R.IsIdentity() != 0 {')] = 'self-check on the recomputed PUBLIC nonce point R (equals the R whose x-coordinate is in the signature)'
-        DECLASSIFIED[('bitcoin.verifySchnorrSignatureR', 'if rYIsOdd != 0 {')] = 'parity of the public nonce point R'
-        DECLASSIFIED[('bitcoin.verifySchnorrSignatureR', 'if !bytes.Equal(rXBytes, sigRXBytes) {')] = 'x(R) is the published signature component'
+        DECLASS_RULES.append(('bitcoin.verifySchnorrSignatureR', None, 'self-check on the recomputed PUBLIC nonce point R (the R whose x-coordinate is in the '
+                              'signature and whose y is even by construction): identity test, parity and x comparison are on published values'))
         tasks.append(('proto', t_proto('NewPrivateKey', r_newprivkey)))
         tasks.append(('proto', t_proto('ECDH', r_ecdh)))
         tasks.append(('proto', t_proto('SignRaw', r_sign)))
